@@ -179,6 +179,10 @@ class Recorder:
                         self.bad("faithful", "%s uri %r != %r" % (k, uri, exp["uri"]))
                     if k == "subscribe" and (msg.match or "exact") != exp.get("match", "exact"):
                         self.bad("faithful", "subscribe match %r" % msg.match)
+                    for attr, want in (exp.get("opts") or {}).items():
+                        got = getattr(msg, attr)
+                        if got != want and not (want is None and got in (None, "exact", "single")):
+                            self.bad("faithful", "%s option %s on the wire %r, given %r" % (k, attr, got, want))
                 elif k == "unsubscribe" and msg.subscription != exp["sub"]:
                     self.bad("faithful", "unsubscribe names %r not %r" % (msg.subscription, exp["sub"]))
                 elif k == "unregister" and msg.registration != exp["reg"]:
@@ -345,6 +349,9 @@ class Recorder:
             self.bad("argsOk", "endpoint got %r %r, invocation carried %r %r" % (a, kw, exp["args"], exp["kwargs"]))
         if details is None or details.caller != exp["caller"] or (details.progress is not None) != exp["rp"]:
             self.bad("argsOk", "endpoint details %r (rp=%r)" % (details, exp["rp"]))
+        # the procedure actually called (named by the router for pattern-based registrations), else the registered one
+        if details is not None and details.procedure != (exp.get("procedure") or "com.myapp.proc9"):
+            self.bad("argsOk", "endpoint details.procedure %r, invocation named %r" % (details.procedure, exp.get("procedure")))
         beh = self.beh
         ret = None
         self.endpoint_expect[req] = {}
@@ -364,6 +371,9 @@ class Recorder:
         elif beh == "apperror":
             self.endpoint_expect[req]["err"] = ("com.myapp.error.custom", ["bad", 7], {"why": "because"})
             raise ApplicationError("com.myapp.error.custom", "bad", 7, why="because")
+        elif beh == "bigerror":
+            # the ERROR for this exception is itself too large for the transport: a (small) fallback ERROR must go out
+            raise ApplicationError("com.myapp.error.big", "y" * 5000, why="z" * 100)
         elif beh == "mapped":
             self.endpoint_expect[req]["err"] = ("com.myapp.error.mapped", ["m1"], {})
             raise MappedError("m1")
@@ -550,10 +560,11 @@ def scenario(rng, profile):
         elif choice == "subscribe":
             hid = rng.choice([1, 2, 3])
             topic = rng.choice(["com.myapp.topic1", "com.myapp.topic2"])
-            R.expect_sent = dict(uri=topic)
+            gr = rng.choice([None, None, True, False])
+            R.expect_sent = dict(uri=topic, opts=dict(get_retained=gr) if (hids[hid] or gr is not None) else None)
 
             def f():
-                opts = SubscribeOptions(details=True) if hids[hid] else None
+                opts = SubscribeOptions(details=True if hids[hid] else None, get_retained=gr) if (hids[hid] or gr is not None) else None
                 fut = s.subscribe(R.handlers[hid], topic, options=opts)
                 rid = R.last_req()
                 R.requests[rid] = dict(kind="subscribe", hid=hid, unsub_on_reply=(profile == "c11" and rng.random() < 0.15))
@@ -579,10 +590,12 @@ def scenario(rng, profile):
                 R.track(fut, rid)
             api("subscribe", f, h=hid)
         elif choice == "register":
-            R.expect_sent = dict(uri="com.myapp.proc9")
+            ro = dict(match=rng.choice([None, None, "exact", "prefix"]), invoke=rng.choice([None, None, "single", "roundrobin", "first"]),
+                      concurrency=rng.choice([None, None, 3]), force_reregister=rng.choice([None, None, True, False]))
+            R.expect_sent = dict(uri="com.myapp.proc9", opts=ro)
 
             def f():
-                fut = s.register(R.endpoint, "com.myapp.proc9", options=RegisterOptions(details=True))
+                fut = s.register(R.endpoint, "com.myapp.proc9", options=RegisterOptions(details=True, **ro))
                 rid = R.last_req()
                 R.requests[rid] = dict(kind="register")
 
@@ -708,16 +721,17 @@ def scenario(rng, profile):
             rq = router_next_id[0] if rng.random() < 0.9 or not inv_ids else rng.choice(inv_ids)
             router_next_id[0] += 1
             rp = rng.random() < 0.5
-            beh = rng.choice(["value", "callresult", "none", "unserializable", "oversize", "apperror", "mapped", "unmapped", "pending", "pending"])
+            beh = rng.choice(["value", "callresult", "none", "unserializable", "oversize", "apperror", "bigerror", "mapped", "unmapped", "pending", "pending"])
             caller = rng.choice([None, 4711])
-            R.inv_expect = dict(req=rq, reg=reg, args=args, kwargs=kwargs, rp=rp, caller=caller)
+            iproc = rng.choice([None, None, "com.myapp.proc9.sub.x"])
+            R.inv_expect = dict(req=rq, reg=reg, args=args, kwargs=kwargs, rp=rp, caller=caller, procedure=iproc)
             if rq not in s._invocations:
                 R.inv_rp[rq] = rp
             if rq not in inv_ids:
                 fresh = True
             inv_ids.append(rq)
             rx(message.Invocation(rq, reg, args=margs or None, kwargs=mkwargs or None,
-                                  receive_progress=(True if rp else rng.choice([None, False])), caller=caller),
+                                  receive_progress=(True if rp else rng.choice([None, False])), caller=caller, procedure=iproc),
                dict(t="invocation", req=rq, reg=reg, rp=rp), beh=beh)
         elif t == "interrupt":
             rq = rng.choice(inv_ids) if inv_ids and rng.random() < 0.8 else 999
@@ -750,7 +764,7 @@ def scenario(rng, profile):
                 R.re["exc"] = type(e).__name__
             R.step(dict(ev="progress", req=rq))
         else:
-            how = rng.choice(["value", "callresult", "none", "unserializable", "oversize", "apperror", "mapped", "unmapped"])
+            how = rng.choice(["value", "callresult", "none", "unserializable", "oversize", "apperror", "bigerror", "mapped", "unmapped"])
             R.pending_endpoints.pop(rq)
             R.endpoint_expect[rq] = {}
             if how == "value":
@@ -769,6 +783,8 @@ def scenario(rng, profile):
             elif how == "apperror":
                 R.endpoint_expect[rq]["err"] = ("com.myapp.error.custom", ["bad", 7], {"why": "because"})
                 txaio.reject(d, ApplicationError("com.myapp.error.custom", "bad", 7, why="because"))
+            elif how == "bigerror":
+                txaio.reject(d, ApplicationError("com.myapp.error.big", "y" * 5000, why="z" * 100))
             elif how == "mapped":
                 R.endpoint_expect[rq]["err"] = ("com.myapp.error.mapped", ["m1"], {})
                 txaio.reject(d, MappedError("m1"))
